@@ -242,13 +242,13 @@ Proof.
       inversion H; subst. rewrite <- Es; exact Ek.
   - destruct (nested E C fault cx (run_body E C fault b) h s) as [[[r0 o0] h1] s1] eqn:En.
     apply (nested_cx_flags _ _ IHb) in En.
-    destruct r0.
+    destruct r0 as [|e0|p0].
     + destruct (run_body E C fault k h1 s1) as [[[r1 l1] h2] s2] eqn:Ek. apply IHk in Ek.
       inversion H; subst. eapply flags_le_trans; eassumption.
     + destruct chk; [inversion H; subst; exact En|].
       destruct (run_body E C fault k h1 s1) as [[[r1 l1] h2] s2] eqn:Ek. apply IHk in Ek.
       inversion H; subst. eapply flags_le_trans; eassumption.
-    + destruct rcv; [|inversion H; subst; exact En].
+    + destruct (recovers rcv p0); [|inversion H; subst; exact En].
       destruct (run_body E C fault k h1 s1) as [[[r1 l1] h2] s2] eqn:Ek. apply IHk in Ek.
       inversion H; subst. eapply flags_le_trans; eassumption.
   - destruct (h_sp E C fault true (NUser n) h s) as [h1 s1] eqn:Es. apply h_sp_flags in Es.
